@@ -291,6 +291,12 @@ func cmdPlan(args []string) {
 		remotes := []api.RemoteEngine{engine.NewLocalEngine(ropts, store), engine.NewLocalEngine(ropts, NewStore(nil))}
 		return engine.NewDistributedEngine(engine.Opts{EngineOpts: promOpts(EngineCfg{})}, api.NewStaticEndpoints(remotes))
 	}()
+	// a distributed engine created with the fallback disabled (and remote engines likewise)
+	engDistOff := func() queryMaker {
+		ropts := engine.Opts{EngineOpts: promOpts(EngineCfg{}), DisableFallback: true}
+		remotes := []api.RemoteEngine{engine.NewLocalEngine(ropts, store), engine.NewLocalEngine(ropts, NewStore(nil))}
+		return engine.NewDistributedEngine(engine.Opts{EngineOpts: promOpts(EngineCfg{}), DisableFallback: true}, api.NewStaticEndpoints(remotes))
+	}()
 	ref := promql.NewEngine(promOpts(EngineCfg{}))
 	start0 := start
 	for _, wmode := range []int{0, 1, 2} {
@@ -429,6 +435,32 @@ func cmdPlan(args []string) {
 				}
 				cases = append(cases, pc)
 				obs[k] = pc
+			}
+			// the fallback switch of a distributed engine: with it off no query may reach the Prometheus engine
+			{
+				var dq promql.Query
+				var derr error
+				func() {
+					defer func() {
+						if e := recover(); e != nil {
+							derr = fmt.Errorf("panic: %v", e)
+						}
+					}()
+					if rng {
+						dq, derr = engDistOff.NewRangeQuery(store, nil, qs, start, end, step)
+					} else {
+						dq, derr = engDistOff.NewInstantQuery(store, nil, qs, end)
+					}
+				}()
+				if out := classifyCreate(dq, derr); out == "Fallback" {
+					last := &cases[len(cases)-1]
+					if last.Oracle == "" {
+						last.Oracle = "distributed engine with the fallback disabled: the query took the fallback path"
+					}
+				}
+				if dq != nil {
+					dq.Close()
+				}
 			}
 			// an unsupported construct that the distributed optimizer hands to remote engines which do have
 			// the fallback: answered by their Prometheus engines and put together by the coordinator - exactly
